@@ -170,6 +170,14 @@ public:
                     if (pn == nullptr) {
                         //ti->store_root_ptr(nullptr);
                         // remain empty deleted root node.
+                        /**
+                         * This node may have been promoted to root while its
+                         * former sibling was emptied concurrently. The sibling
+                         * is retired, so the links to it must not survive in
+                         * the node which is reused by the next insert.
+                         */
+                        set_next(nullptr);
+                        set_prev(nullptr);
                         ti->root_unlock();
                         version_unlock();
                         return;
